@@ -180,38 +180,32 @@ fn wall_geometry(wall: &hulc::bdl::Wall, bdl: &Data) -> Result<WallGeom, Error> 
     let global_deviation = global_deviation_from_north(bdl);
 
     // Calculamos la posición en coordenadas globales, teniendo en cuenta las posiciones y desviaciones
-    // La posición del opaco es en coordenadas globales, incluyendo un giro en Z según desviación global del norte y la desviación del espacio
+    // El punto del opaco, en coordenadas de espacio, gira con el espacio alrededor de su origen, se desplaza a la posición
+    // del espacio en el edificio y gira con el edificio según la desviación global del norte.
     // Los ángulos los cambiamos a radianes y de sentido horario (criterio BDL) a antihorario (-).
-    let angle = -(space.angle_with_building_north + global_deviation).to_radians();
-    let rot = Rotation3::from_euler_angles(0.0, 0.0, angle);
-    let position = rot
-        * match wall.location.as_deref() {
-            // 1. Casos definidos por vértice
-            Some(loc) if loc != "TOP" && loc != "BOTTOM" => {
-                let [p1, _] = space.polygon.edge_vertices(loc).ok_or_else(|| {
-                    format_err!("Vértice {} desconocido en opaco {}", loc, wall.name)
-                })?;
-                point![
-                    p1.x + wall.x + space.x,
-                    p1.y + wall.y + space.y,
-                    wall.z + space.z
-                ]
-            }
-            // 2. Casos definidos mediante polígono o por el espacio
-            _ => {
-                let height = match wall.location.as_deref() {
-                    // Los elementos top definidos por el polígono del espacio necesitan añadir la altura en su z
-                    Some("TOP") if wall.polygon.is_none() => space.height,
-                    // El resto de los definidos por polígono (sin ser el de espacio) ya tienen en la Z la cota final
-                    _ => 0.0,
-                };
-                point![
-                    wall.x + space.x,
-                    wall.y + space.y,
-                    wall.z + space.z + height
-                ]
-            }
-        };
+    let rot_space =
+        Rotation3::from_euler_angles(0.0, 0.0, -space.angle_with_building_north.to_radians());
+    let rot_global = Rotation3::from_euler_angles(0.0, 0.0, -global_deviation.to_radians());
+    let local = match wall.location.as_deref() {
+        // 1. Casos definidos por vértice
+        Some(loc) if loc != "TOP" && loc != "BOTTOM" => {
+            let [p1, _] = space.polygon.edge_vertices(loc).ok_or_else(|| {
+                format_err!("Vértice {} desconocido en opaco {}", loc, wall.name)
+            })?;
+            point![p1.x + wall.x, p1.y + wall.y, wall.z]
+        }
+        // 2. Casos definidos mediante polígono o por el espacio
+        _ => {
+            let height = match wall.location.as_deref() {
+                // Los elementos top definidos por el polígono del espacio necesitan añadir la altura en su z
+                Some("TOP") if wall.polygon.is_none() => space.height,
+                // El resto de los definidos por polígono (sin ser el de espacio) ya tienen en la Z la cota final
+                _ => 0.0,
+            };
+            point![wall.x, wall.y, wall.z + height]
+        }
+    };
+    let position = rot_global * (rot_space * local + Vector3::new(space.x, space.y, space.z));
 
     let polygon = match (wall.location.as_deref(), &wall.polygon) {
         // 1. Elementos definidos por polígono
@@ -219,20 +213,16 @@ fn wall_geometry(wall: &hulc::bdl::Wall, bdl: &Data) -> Result<WallGeom, Error> 
         (None | Some("TOP"), Some(ref polygon)) => polygon.as_vec(),
         // 3. Elementos TOP definidos por la geometría de su espacio
         (Some("TOP"), None) => {
-            // Giramos el polígono según la desviación respecto al norte del opaco y el espacio
-            // El giro global del edificio respecto al norte ya está incluido
-            let azimuth = orientation_bdl_to_52016(
-                space.angle_with_building_north + wall.angle_with_space_north,
-            );
+            // Deshacemos en el polígono el giro del azimut del opaco (criterio 52016: 180 - azimut BDL)
+            // Los giros del espacio y del edificio respecto al norte ya están incluidos en el azimut de la geometría
+            let azimuth = wall.angle_with_space_north - 180.0;
             space_polygon.rotate(azimuth.to_radians()).as_vec()
         }
         // 4. Elementos BOTTOM definidos por la geometría de su espacio
         (Some("BOTTOM"), None) => {
-            // Giramos el polígono según la desviación respecto al norte del opaco y el espacio
-            // El giro global del edificio respecto al norte ya está incluido
-            let azimuth = orientation_bdl_to_52016(
-                space.angle_with_building_north + wall.angle_with_space_north,
-            );
+            // Deshacemos en el polígono el giro del azimut del opaco (criterio 52016: 180 - azimut BDL)
+            // Los giros del espacio y del edificio respecto al norte ya están incluidos en el azimut de la geometría
+            let azimuth = wall.angle_with_space_north - 180.0;
             // Hacemos un mirror (y -> -y para cada punto) sobre el eje X para que el giro del tilt 180 lo deje igual
             space_polygon
                 .rotate(azimuth.to_radians())
